@@ -113,6 +113,17 @@ package rules
 // methods or closures and decides the dispatch through a func-typed field of Limiter.
 // 17 mutants re-applied on top of the r6, r7 and r8 shapes are all reported.
 //
+// Robustness pass, third set (/verif/preserving/C09/r9..r12, all exit 0 now): the policy
+// comparison is recognised as a function OR a method of Spec (two *Spec incl. the receiver, one
+// name → bool; R-C09-3/-6/-8); the reserve typestate reads named results with bare return and
+// verdicts carried in a result struct (`permission{granted: true}`), and runs over the reach of
+// the acquire function with the helpers holding the stores interpreted in place (acquire split at
+// the lock boundary); a lock-requiring helper called on an object allocated in the caller
+// (constructor sharing restart() with SetState) needs no lock; R-C09-4 follows the limiter
+// through a field of any struct of the package (stores and struct literals) and decides the
+// dispatch through an interface-typed field by the methods of the types stored into it.
+// 13 mutants re-applied on the r10, r11 and r12 shapes are all reported.
+//
 // Fourth round of seeded changes (slips inside refactorings, /verif/seeded/C09/{g,h}):
 //
 //	g  helpers extracted, `now := nowFunc()` left above rl.lock.Lock()
